@@ -472,6 +472,9 @@ class AnnotationCollection(AbstractFeatureIntervalCollection):
         # edge case -- we are not actually subsetting at all
         if start == self.start and end == self.end:
             return self.chunk_relative_location.parent
+        # edge case -- there is no sequence to subset
+        if not self.chunk_relative_location.parent.sequence:
+            return self.chunk_relative_location.parent
 
         chrom_ancestor = self.lift_over_to_first_ancestor_of_type(SequenceType.CHROMOSOME)
 
